@@ -11,17 +11,19 @@ namespace RRule
 
 inductive Family where
   | daily | weekly | yearlyMonthly | monthlyNth | yearlyNth | yearlyBymonthNth | yearlyEaster | yearlyWeekno
+  | monthlyWeekno
   | hourly | hourlyByhour | minutely | minutelyByminute | secondly
   deriving Repr, DecidableEq, Inhabited
 
 def Family.name : Family → String
   | .daily => "daily" | .weekly => "weekly" | .yearlyMonthly => "yearly_monthly" | .monthlyNth => "monthly_nth"
   | .yearlyNth => "yearly_nth" | .yearlyBymonthNth => "yearly_bymonth_nth" | .yearlyEaster => "yearly_easter"
-  | .yearlyWeekno => "yearly_weekno" | .hourly => "hourly" | .hourlyByhour => "hourly_byhour"
+  | .yearlyWeekno => "yearly_weekno" | .monthlyWeekno => "monthly_weekno" | .hourly => "hourly" | .hourlyByhour => "hourly_byhour"
   | .minutely => "minutely" | .minutelyByminute => "minutely_byminute" | .secondly => "secondly"
 
 def Family.all : List Family :=
   [.daily, .weekly, .yearlyMonthly, .monthlyNth, .yearlyNth, .yearlyBymonthNth, .yearlyEaster, .yearlyWeekno,
+   .monthlyWeekno,
    .hourly, .hourlyByhour, .minutely, .minutelyByminute, .secondly]
 
 /-- the optional list is given, non-empty, and satisfies `P` -/
@@ -83,6 +85,8 @@ def SupportedBy (a : Args) : Family → Prop
       someWith a.byeaster (fun el => ∀ o ∈ el, -80 ≤ o ∧ o ≤ 250)
   | .yearlyWeekno => a.freq = 0 ∧ baseOk a ∧ a.byeaster = none ∧ plainDays a ∧
       (0 ≤ a.wkst.getD 0 ∧ a.wkst.getD 0 ≤ 6) ∧ someWith a.byweekno wnoOk
+  | .monthlyWeekno => a.freq = 1 ∧ baseOk a ∧ a.byeaster = none ∧ plainDays a ∧
+      (0 ≤ a.wkst.getD 0 ∧ a.wkst.getD 0 ≤ 6) ∧ someWith a.byweekno wnoOk
   | .hourly => a.freq = 4 ∧ baseOk a ∧ wArgOk a ∧ a.byeaster = none ∧ a.byhour = none ∧
       minutesOk a ∧ secondsOk a
   | .hourlyByhour => a.freq = 4 ∧ baseOk a ∧ wArgOk a ∧ a.byeaster = none ∧
@@ -114,7 +118,7 @@ def inRange (a : Args) (f : Family) (n : Nat) : Prop :=
   | .weekly => Spec.RRule.weekStart (a.wkst.getD 0) (Spec.RRule.startOrd a) + 7 * (n * a.interval) + 7 ≤ Cal.maxOrdinal + 1
   | .yearlyMonthly => (a.freq = 0 → a.dtstart.y + n * a.interval ≤ 9999) ∧
       (a.freq = 1 → (a.dtstart.y * 12 + (a.dtstart.m - 1) + n * a.interval) / 12 ≤ 9999)
-  | .monthlyNth => (a.dtstart.y * 12 + (a.dtstart.m - 1) + n * a.interval) / 12 ≤ 9999
+  | .monthlyNth | .monthlyWeekno => (a.dtstart.y * 12 + (a.dtstart.m - 1) + n * a.interval) / 12 ≤ 9999
   | .yearlyNth | .yearlyBymonthNth | .yearlyWeekno => a.dtstart.y + n * a.interval ≤ 9999
   | .yearlyEaster => 1583 ≤ a.dtstart.y ∧ a.dtstart.y + n * a.interval ≤ 4099
   | .hourly => Spec.RRule.startOrd a * 24 + a.dtstart.hh + (24 * n + 1) * a.interval + 23 < (Cal.maxOrdinal + 1) * 24
